@@ -5,6 +5,7 @@ fragment sizes; direct oracle for every clause of the property."""
 import json
 
 from harness.core import Prop
+from harness import detloop, simnet
 
 TYPES = {'PAYLOAD': 10, 'REQUEST_RESPONSE': 4, 'REQUEST_FNF': 5, 'REQUEST_STREAM': 6, 'REQUEST_CHANNEL': 7}
 HDR = {10: 6, 4: 6, 5: 6, 6: 10, 7: 10}
@@ -33,7 +34,7 @@ class C03(Prop):
                   'c03_fits_single and c03_reassemble_exact are kernel-checked for all metadata/data, all F >= the regenerated minimum, both framings and the '
                   'five types of the regenerated table; the size clause is proved as c03_size_partial (<= F+3; <= F without metadata) and its full-strength '
                   'form is refuted by c03_size_counterexample, replayed on the implementation as a recorded finding. The model is a transcription of '
-                  'FrameFragmenter.__iter__, new_frame_fragment and FrameFragmentCache and is run against them through serialize/parse. c03_engine_reassembles: on the engine model (tied to the code by the C07/C09-C12 correspondence runs, which feed fragmented frames), a frame arriving as first / continuation / last fragments has exactly the effect of the whole frame, for every state, frame type, split and handler behaviour.')
+                  'FrameFragmenter.__iter__, new_frame_fragment and FrameFragmentCache and is run against them through serialize/parse, a share of the cases through the real sender task of an endpoint (transport with and without the length prefix). c03_engine_reassembles: on the engine model (tied to the code by the C07/C09-C12 correspondence runs, which feed fragmented frames), a frame arriving as first / continuation / last fragments has exactly the effect of the whole frame, for every state, frame type, split and handler behaviour.')
     level_note = ('Trusted: Lean kernel + standard axioms; regenerated header table and minimum size (side conditions c03_header_table, c03_min_fragment_room '
                   'are decided on every build); model fidelity as far as the correspondence reaches; BytesIO.read = List.take/drop.')
     design_ref = '§5 C03'
@@ -53,7 +54,8 @@ class C03(Prop):
                         vals = vals[:: 2] if F != 64 else vals
                     for md in vals:
                         for d in vals:
-                            out.append({'t': tname, 'lp': lp, 'F': F, 'md': md, 'd': d, 'C': (md + d) % 2 == 1, 'n': 1 + (md * 31 + d) % 1000})
+                            out.append({'t': tname, 'lp': lp, 'F': F, 'md': md, 'd': d, 'C': (md + d) % 2 == 1, 'n': 1 + (md * 31 + d) % 1000,
+                                        'via': 'sender' if (md * 7 + d) % 4 == 0 else 'direct'})
         W = 40 if tier == 'quick' else 160
         for tname in TYPES:
             for lp in (False, True):
@@ -64,7 +66,7 @@ class C03(Prop):
             out.append({'t': rng.choice(list(TYPES)), 'lp': rng.random() < 0.5, 'F': rng.choice([64, 64, 100, 1024, 4096, 65536]),
                         'md': rng.choice([0, 0, rng.randint(0, 3000), rng.randint(0, 200000)]),
                         'd': rng.choice([0, rng.randint(0, 3000), rng.randint(0, 400000 if tier == 'thorough' else 60000)]),
-                        'C': rng.random() < 0.5, 'n': rng.choice([1, 2 ** 31 - 1, rng.randint(1, 2 ** 31 - 1)])})
+                        'C': rng.random() < 0.5, 'n': rng.choice([1, 2 ** 31 - 1, rng.randint(1, 2 ** 31 - 1)]), 'via': rng.choice(['direct', 'direct', 'sender'])})
         return out
 
     def run_impl(self, case):
@@ -86,11 +88,15 @@ class C03(Prop):
         else:
             base = B.to_request_channel_frame(sid, Payload(d, md), size, case['n'], case['C'])
         frags = []
-        while True:
-            fr = base.get_next_fragment(lp)
-            if fr is None or len(frags) > 20000:
-                break
-            frags.append(fr)
+        if case.get('via') == 'sender':
+            # the fragments as the endpoint's own sender task produces them for a transport with / without the length prefix
+            frags = detloop.run(self._through_sender, dict(case, _base=base))
+        else:
+            while True:
+                fr = base.get_next_fragment(lp)
+                if fr is None or len(frags) > 20000:
+                    break
+                frags.append(fr)
         cache = FrameFragmentCache()
         rows, results = [], []
         final = None
@@ -122,6 +128,17 @@ class C03(Prop):
         whole = len(base.serialize()) + (3 if lp else 0) if False else None
         return {'rows': rows, 'results': results, 'content_ok': content_ok, 'cache': len(cache._frames_by_stream_id),
                 'reasm_complete': bool(final.flags_complete) if final is not None else None}
+
+    async def _through_sender(self, loop, case):
+        from rsocket.rsocket_server import RSocketServer
+        t = simnet.ScriptedTransport(loop, length_header=case['lp'])
+        server = RSocketServer(t, fragment_size_bytes=case['F'])
+        await loop.settle()
+        server.send_frame(case['_base'])
+        await loop.settle()
+        out = [e[2] for e in t.sent]
+        await server.close()
+        return out
 
     def model_lines(self, case, obs):
         return ['frag ty=%d F=%d lp=%d sid=5 n=%d C=%d md=%d d=%d' % (
